@@ -26,9 +26,10 @@ def layout_case(tag, world, opts, prestate=None, input_bytes=None, config_text=N
     cfg_text = config_text if config_text is not None else cfg_text
     ods = input_bytes if input_bytes is not None else ods
     sub = opts.get("files_in", "")
-    files = {"config": sub + "w0.ini", "input": sub + "w0.ods"}
-    w.put(files["config"], cfg_text, 0o444 if readonly_inputs else None)
-    w.put(files["input"], ods, 0o444 if readonly_inputs else None)
+    names = opts.get("file_names") or ["w0.ini", "w0.ods"]
+    files = {"config": sub + names[0], "input": sub + names[1]}
+    w.put(files["config"], cfg_text, 0o444 if readonly_inputs else None, mtime=opts.get("input_mtime"))
+    w.put(files["input"], ods, 0o444 if readonly_inputs else None, mtime=opts.get("input_mtime"))
     fix_outdir(w, opts)
     apply_prestate(w, opts, world, prestate or [])
     return w, files
@@ -44,6 +45,8 @@ def out_abs(w, opts):
     o = opts.get("outdir")
     if o == "ABS":
         return os.path.join(w.world, "abs out")
+    if o == "INPUTDIR":
+        o = (opts.get("files_in") or "./").rstrip("/") or "."
     return os.path.normpath(os.path.join(w.work, o if o is not None else "output/"))
 
 
@@ -238,4 +241,6 @@ def host_perturbations(host):
         kinds.append("hashseed")
     if host.get("aslr"):
         kinds.append("aslr")
+    if host.get("user") or host.get("hostname") or host.get("columns") or host.get("umask") is not None:
+        kinds.append("identity")
     return kinds
